@@ -9,7 +9,7 @@ from hypothesis import strategies as st
 from pbt import strategies as S
 from pbt.common import Stats, Sub, Violation
 from pbt.model import Model, norm_record, norm_records, prefixes_of, uri_prefixes_of
-from pbt.sut import Converter, curies, dump_records, mk_records
+from pbt.sut import BUILD_MODES, Converter, curies, dump_records, mk_converter_via, mk_records
 
 PROPERTY_ID = "C11"
 RULE = (
@@ -75,7 +75,7 @@ def cases(draw, tier="quick"):
             mapping = [[known[0], "m0"]]
     if not mapping:
         mapping = [[known[0], "m0"]]
-    return {"records": recs, "mapping": mapping, "shape": shape}
+    return {"records": recs, "mapping": mapping, "shape": shape, "build": draw(st.sampled_from(BUILD_MODES))}
 
 
 def _has_cycle(mapping: dict) -> bool:
@@ -111,7 +111,7 @@ def check(case, stats: Stats) -> None:
     recs = case["records"]
     mapping = {k: v for k, v in case["mapping"]}
     model = Model(recs)
-    conv = Converter(mk_records(recs))
+    conv = mk_converter_via({"delimiter": ":", "records": recs}, case.get("build", "at-once"))
     R = curies.reconciliation
     known_before = set(model.all_prefixes())
     try:
